@@ -198,6 +198,16 @@ def run(rep, tier, seed):
                     r0 = lang.quiet(Rodas, nd0, [0, 0.2], y00, Opt(rtol=1e-6, atol=1e-9))
                     r2 = lang.quiet(Rodas, nd2, [0, 0.2], y02, Opt(rtol=1e-6, atol=1e-9))
                     pairs = [("implicit_trapezoid", a0.Y[-1], a2.Y[-1], 1e-8), ("Rodas", r0.Y[-1], r2.Y[-1], 1e-4)]
+                    # the initial slope ode15s starts from (first step size, first predictor): per named variable the same numbers
+                    from Solverz.solvers.daesolver.daeic import getyp0 as _getyp0
+                    from Solverz.variable.variables import Vars as _Vars
+                    s0 = _Vars(y00.a, _getyp0(nd0, y00.array.copy(), 0.0)); s2 = _Vars(y02.a, _getyp0(nd2, y02.array.copy(), 0.0))
+                    for newk in range(len(gm2.vars)):
+                        n0 = gm.vars[pv[newk]][0]; n2 = gm2.vars[newk][0]
+                        a_, b_ = np.asarray(s0[n0]), np.asarray(s2[n2])
+                        if np.all(np.isfinite(a_)) and np.all(np.isfinite(b_)) and not np.allclose(a_, b_, rtol=1e-9, atol=1e-12):
+                            fails.append((case, f"initial slope of {n0} (renamed {n2}) used by ode15s is {a_} in the original and {b_} after "
+                                                f"reordering / renaming the declarations"))
                     # conditioning baseline: the same declaration from a start perturbed in the 11th digit.  A trajectory that
                     # amplifies that by more than a tenth of the comparison tolerance (blow-up, 1/(a-b) terms of random models)
                     # cannot be compared across term orderings: renaming changes sympy's summation order by an ulp
